@@ -20,3 +20,14 @@ pub assume_specification<T, P: FnOnce(&T) -> bool>[ Option::<T>::filter ](o: Opt
 N_STD_TOKENS = 4
 STD_ASSUMPTION = {"what": "core::mem::replace / core::mem::take / Option::or / Option::filter have their documented std meaning (assume_specification)",
                   "count": N_STD_TOKENS}
+
+
+# unconstrained results for boolean str predicates (see extract.Item.shim_str_predicates)
+STR_PREDS = r"""
+#[verifier::external_body] pub fn str_pred_starts_with<S, P>(s: &S, p: P) -> bool { unimplemented!() }
+#[verifier::external_body] pub fn str_pred_ends_with<S, P>(s: &S, p: P) -> bool { unimplemented!() }
+#[verifier::external_body] pub fn str_pred_eq_ignore_ascii_case<S, P>(s: &S, p: P) -> bool { unimplemented!() }
+#[verifier::external_body] pub fn str_pred_is_ascii<S>(s: &S) -> bool { unimplemented!() }
+"""
+STR_PREDS_ASSUMPTION = {"what": "boolean str predicates (starts_with, ends_with, eq_ignore_ascii_case, is_ascii) return an unconstrained bool",
+                        "keys": ["fn str_pred_"], "count": 4}
